@@ -66,6 +66,9 @@ class FuncInfo(object):
         self.mutations = set()     # names mutated in place
 
 
+IMPORTED_MODULES = set()      # names bound by `import x` / `from . import x` in the module being scanned
+
+
 def analyse_body(info):
     for n in ast.walk(info.node):
         if isinstance(n, ast.Name) and isinstance(n.ctx, ast.Load):
@@ -77,7 +80,8 @@ def analyse_body(info):
             if isinstance(f, ast.Name):
                 info.calls.add(f.id)
             elif isinstance(f, ast.Attribute):
-                info.calls.add(f.attr)
+                if not (isinstance(f.value, ast.Name) and f.value.id in IMPORTED_MODULES):      # `rbql_engine.query(..)` is not a call of a local `query`
+                    info.calls.add(f.attr)
                 if f.attr in MUTATORS and isinstance(f.value, ast.Name):
                     info.mutations.add(f.value.id)
         elif isinstance(n, (ast.Assign, ast.AugAssign, ast.AnnAssign, ast.Delete)):
@@ -94,9 +98,210 @@ def analyse_body(info):
                             info.mutations.add(base.id)
 
 
-def scan(path):
+
+SHALLOW_COPIERS = {'list', 'sorted', 'tuple', 'reversed', 'copy'}
+
+
+class Taint(object):
+    """Which local names may denote (part of) a module-level mutable value.  Two levels:
+      'alias' : the very object, or an object nested inside it (an element of a shared list, a value of a shared dict);
+      'elems' : a NEW container whose elements are the shared ones (`X[:]`, `list(X)`, `X.copy()`, `X + [..]`): changing its
+                top level is harmless, reaching INTO it (`for g in copy`, `copy[i]`) gives an 'alias' again.
+    Flow-insensitive inside a function, parameters receive the taint of the arguments (fixpoint over the call graph)."""
+
+    def __init__(self, module_mutable, funcs):
+        self.module_mutable = set(module_mutable)
+        self.funcs = funcs
+        self.param_taint = {}      # (function name, parameter name) -> (level, source)
+        self.return_taint = {}     # function name -> (level, source)
+        self.writes = set()        # (source, via-name, function)
+
+    @staticmethod
+    def join(a, b):
+        if a is None: return b
+        if b is None: return a
+        return a if a[0] == 'alias' else b
+
+    def expr(self, e, env, info):
+        if isinstance(e, ast.Name):
+            if e.id in env:
+                return env[e.id]
+            if e.id in self.module_mutable and e.id not in info.stores:
+                return ('alias', e.id)
+            return None
+        if isinstance(e, ast.Subscript):
+            t = self.expr(e.value, env, info)
+            if t is None:
+                return None
+            return ('elems', t[1]) if isinstance(e.slice, ast.Slice) else ('alias', t[1])
+        if isinstance(e, ast.Attribute):
+            return None
+        if isinstance(e, ast.BinOp) and isinstance(e.op, (ast.Add, ast.Mult)):
+            t = self.join(self.expr(e.left, env, info), self.expr(e.right, env, info))
+            return None if t is None else ('elems', t[1])
+        if isinstance(e, ast.IfExp):
+            return self.join(self.expr(e.body, env, info), self.expr(e.orelse, env, info))
+        if isinstance(e, (ast.List, ast.Tuple, ast.Set)):
+            t = None
+            for x in e.elts:
+                xt = self.expr(x.value if isinstance(x, ast.Starred) else x, env, info)
+                if xt is not None:
+                    t = self.join(t, ('elems', xt[1]))
+            return t
+        if isinstance(e, ast.Call):
+            f = e.func
+            name = f.id if isinstance(f, ast.Name) else (f.attr if isinstance(f, ast.Attribute) else None)
+            if name == 'deepcopy':
+                return None
+            if name in SHALLOW_COPIERS or name in ('enumerate', 'zip', 'iter', 'filter', 'values', 'items'):
+                args = list(e.args) + ([f.value] if isinstance(f, ast.Attribute) else [])
+                t = None
+                for a in args:
+                    at = self.expr(a, env, info)
+                    if at is not None:
+                        t = self.join(t, ('elems', at[1]))
+                return t
+            if name in ('get', 'pop', 'setdefault', '__getitem__', 'next') and isinstance(f, ast.Attribute):
+                t = self.expr(f.value, env, info)
+                return None if t is None else ('alias', t[1])
+            if isinstance(f, ast.Name) and name in self.return_taint:
+                return self.return_taint[name]
+            return None
+        return None
+
+    def bind_target(self, target, t, env):
+        changed = False
+        for sub in ast.walk(target):
+            if isinstance(sub, ast.Name) and isinstance(sub.ctx, ast.Store):
+                new = self.join(env.get(sub.id), t)
+                if new != env.get(sub.id):
+                    env[sub.id] = new
+                    changed = True
+        return changed
+
+    def run_function(self, fname, info):
+        """returns True when a parameter / return taint of some function changed"""
+        node = info.node
+        env = {}
+        if isinstance(node, (ast.FunctionDef, ast.AsyncFunctionDef)):
+            for a in node.args.args + node.args.kwonlyargs:
+                t = self.param_taint.get((fname, a.arg))
+                if t is not None:
+                    env[a.arg] = t
+        progress = True
+        rounds = 0
+        while progress and rounds < 20:
+            progress = False
+            rounds += 1
+            for n in ast.walk(node):
+                if isinstance(n, ast.Assign):
+                    t = self.expr(n.value, env, info)
+                    if t is not None:
+                        for tg in n.targets:
+                            if isinstance(tg, ast.Name):
+                                progress |= self.bind_target(tg, t, env)
+                            elif isinstance(tg, (ast.Tuple, ast.List)):
+                                progress |= self.bind_target(tg, ('alias', t[1]), env)
+                elif isinstance(n, (ast.For, ast.AsyncFor)):
+                    t = self.expr(n.iter, env, info)
+                    if t is not None:
+                        progress |= self.bind_target(n.target, ('alias', t[1]), env)
+                elif isinstance(n, ast.comprehension):
+                    t = self.expr(n.iter, env, info)
+                    if t is not None:
+                        progress |= self.bind_target(n.target, ('alias', t[1]), env)
+                elif isinstance(n, ast.withitem) and n.optional_vars is not None:
+                    t = self.expr(n.context_expr, env, info)
+                    if t is not None:
+                        progress |= self.bind_target(n.optional_vars, t, env)
+        changed = False
+        for n in ast.walk(node):
+            if isinstance(n, ast.Call):
+                f = n.func
+                # a mutating method called on a shared object
+                if isinstance(f, ast.Attribute) and f.attr in MUTATORS:
+                    t = self.expr(f.value, env, info)
+                    if t is not None and t[0] == 'alias' and not (isinstance(f.value, ast.Name) and f.value.id in self.module_mutable):
+                        self.writes.add((t[1], ast.unparse(f.value), fname))
+                # arguments -> parameters of the callee
+                callee = f.id if isinstance(f, ast.Name) else (f.attr if isinstance(f, ast.Attribute) else None)
+                for ci in self.funcs.get(callee, []):
+                    cn = ci.node
+                    if isinstance(cn, ast.ClassDef):
+                        inits = [m for m in cn.body if isinstance(m, ast.FunctionDef) and m.name == '__init__']
+                        if not inits:
+                            continue
+                        cn, offset, key = inits[0], 1, '__init__'
+                    elif isinstance(cn, (ast.FunctionDef, ast.AsyncFunctionDef)):
+                        offset = 1 if (isinstance(f, ast.Attribute) and cn.args.args and cn.args.args[0].arg in ('self', 'cls')) else 0
+                        key = callee
+                    else:
+                        continue
+                    params = [a.arg for a in cn.args.args][offset:]
+                    for i, a in enumerate(n.args):
+                        t = self.expr(a, env, info)
+                        if t is not None and i < len(params):
+                            old = self.param_taint.get((key, params[i]))
+                            new = self.join(old, t)
+                            if new != old:
+                                self.param_taint[(key, params[i])] = new
+                                changed = True
+                    for kw in n.keywords:
+                        t = self.expr(kw.value, env, info) if kw.arg else None
+                        if t is not None and kw.arg in params:
+                            old = self.param_taint.get((key, kw.arg))
+                            new = self.join(old, t)
+                            if new != old:
+                                self.param_taint[(key, kw.arg)] = new
+                                changed = True
+            elif isinstance(n, (ast.Assign, ast.AugAssign, ast.AnnAssign, ast.Delete)):
+                targets = n.targets if isinstance(n, (ast.Assign, ast.Delete)) else [n.target]
+                for tg in targets:
+                    for sub in ast.walk(tg):
+                        if isinstance(sub, (ast.Subscript, ast.Attribute)) and isinstance(sub.ctx, (ast.Store, ast.Del)):
+                            t = self.expr(sub.value, env, info)
+                            if t is not None and t[0] == 'alias' and not (isinstance(sub.value, ast.Name) and sub.value.id in self.module_mutable):
+                                self.writes.add((t[1], ast.unparse(sub.value), fname))
+                if isinstance(n, ast.AugAssign) and isinstance(n.target, ast.Name):
+                    t = env.get(n.target.id)
+                    if t is not None and t[0] == 'alias':
+                        self.writes.add((t[1], n.target.id, fname))          # `x += [..]` extends a list in place
+            elif isinstance(n, ast.Return) and n.value is not None and isinstance(node, (ast.FunctionDef, ast.AsyncFunctionDef)):
+                t = self.expr(n.value, env, info)
+                if t is not None:
+                    old = self.return_taint.get(fname)
+                    new = self.join(old, t)
+                    if new != old:
+                        self.return_taint[fname] = new
+                        changed = True
+        return changed
+
+    def run(self, reach):
+        for _ in range(30):
+            self.writes = set()
+            changed = False
+            for f in sorted(reach):
+                for info in self.funcs.get(f, []):
+                    changed |= self.run_function(f, info)
+            if not changed:
+                break
+        return self.writes
+
+
+MEMOISERS = {'lru_cache', 'cache', 'memoize', 'memoized', 'cached', 'cached_property'}
+
+
+def scan(path, entry=None):
     src = open(path).read()
     tree = ast.parse(src)
+    entry = ENTRY if entry is None else entry
+    IMPORTED_MODULES.clear()
+    if entry is not ENTRY:
+        for node in ast.walk(tree):
+            if isinstance(node, ast.Import):
+                IMPORTED_MODULES.update((a.asname or a.name).split('.')[0] for a in node.names)
+            elif isinstance(node, ast.ImportFrom) and node.module is None:
+                IMPORTED_MODULES.update(a.asname or a.name for a in node.names)
     module_mutable = []
     class_mutable = []
     mutable_defaults = []
@@ -141,7 +346,7 @@ def scan(path):
             global_names |= i.global_decls
     # reachability (name based; templates are reachable from compile_and_run)
     reach = set()
-    work = [e for e in ENTRY if e in funcs]
+    work = [e for e in entry if e in funcs]
     while work:
         f = work.pop()
         if f in reach:
@@ -169,6 +374,22 @@ def scan(path):
             for nm in i.mutations:
                 if nm in module_mutable and nm not in i.stores:      # a local of the same name shadows the module-level one
                     written.add(nm)
+    # a memoising decorator on a reachable function is a module-level cache
+    for f in reach:
+        for i in funcs.get(f, []):
+            for d in getattr(i.node, 'decorator_list', []):
+                dn = d.func if isinstance(d, ast.Call) else d
+                name = dn.id if isinstance(dn, ast.Name) else (dn.attr if isinstance(dn, ast.Attribute) else None)
+                if name in MEMOISERS:
+                    written.add('%s (memoised by @%s)' % (f, name))
+            for sub in ast.walk(i.node):
+                # function attributes used as storage: `f.cache = ..` / `f.cache[k] = ..` where f is a function of the module
+                if isinstance(sub, ast.Attribute) and isinstance(sub.ctx, ast.Store) and isinstance(sub.value, ast.Name) and sub.value.id in funcs and sub.value.id not in i.stores \
+                        and isinstance(funcs[sub.value.id][0].node, (ast.FunctionDef, ast.AsyncFunctionDef)):
+                    written.add('%s.%s (function attribute set in %s)' % (sub.value.id, sub.attr, f))
+    # writes that reach a shared value through local names (aliases, elements of shallow copies, parameters)
+    for srcname, via, fn in Taint(module_mutable, funcs).run(reach):
+        written.add('%s (through `%s` in %s)' % (srcname, via, fn))
     # module-level instances referred to (loaded) by reachable code: every method call on them may change shared state
     used_instances = set()
     for f in reach:
@@ -180,11 +401,32 @@ def scan(path):
             'classLevelMutable': sorted(set(class_mutable)), 'mutableDefaults': sorted(set(mutable_defaults)), 'reachable': sorted(reach)}
 
 
+FRONTENDS = [('rbql_csv', ['query_csv']), ('rbql_pandas', ['query_dataframe', 'query_pandas_dataframe']), ('rbql_sqlite', ['query_sqlite_to_csv']),
+             ('rbql_main', ['run_with_python_csv', 'run_with_python_sqlite', 'run_interactive_loop'])]
+
+
+def scan_frontends(pkg_dir):
+    """the same footprint for the front-end modules (entry points: the library calls and the interactive loop of the command line)"""
+    out = {'writtenOnQueryPath': [], 'classLevelMutable': [], 'mutableDefaults': [], 'sharedInstancesUsed': [], 'moduleLevelMutable': [], 'globalsDeclared': []}
+    for mod, entry in FRONTENDS:
+        path = os.path.join(pkg_dir, mod + '.py')
+        try:
+            r = scan(path, entry)
+        except Exception as e:
+            out['writtenOnQueryPath'].append('%s: <scan failed: %s>' % (mod, type(e).__name__))
+            continue
+        for k in out:
+            out[k] += ['%s: %s' % (mod, x) for x in r[k]]
+    IMPORTED_MODULES.clear()
+    return out
+
+
 def lean_list(xs):
     return '[' + ', '.join('"%s"' % x.replace('\\', '\\\\').replace('"', '\\"') for x in xs) + ']'
 
 
-def to_lean(r, src_path):
+def to_lean(r, src_path, fe=None):
+    fe = fe or {'writtenOnQueryPath': ['<front-ends not scanned>'], 'classLevelMutable': [], 'mutableDefaults': [], 'sharedInstancesUsed': []}
     return '''-- GENERATED on every check run by tools/shared_state_scan.py from %s; do not edit.
 namespace Rbql.Generated
 
@@ -201,12 +443,23 @@ def mutableDefaults : List String := %s
 /-- module-level instances of module-defined classes referred to by code reachable from query() -/
 def sharedInstancesUsed : List String := %s
 
+/-- the same for the front-end modules rbql_csv / rbql_pandas / rbql_sqlite / rbql_main (entry points: query_csv, query_dataframe,
+query_sqlite_to_csv, the command line's run_with_* and interactive loop) -/
+def frontendWrittenOnQueryPath : List String := %s
+def frontendClassLevelMutable : List String := %s
+def frontendMutableDefaults : List String := %s
+def frontendSharedInstancesUsed : List String := %s
+
 end Rbql.Generated
 ''' % (src_path, lean_list(r['moduleLevelMutable']), lean_list(r['globalsDeclared']), lean_list(r['writtenOnQueryPath']),
-       lean_list(r['classLevelMutable']), lean_list(r['mutableDefaults']), lean_list(r['sharedInstancesUsed']))
+       lean_list(r['classLevelMutable']), lean_list(r['mutableDefaults']), lean_list(r['sharedInstancesUsed']),
+       lean_list(fe['writtenOnQueryPath']), lean_list(fe['classLevelMutable']), lean_list(fe['mutableDefaults']), lean_list(fe['sharedInstancesUsed']))
 
 
 if __name__ == '__main__':
     p = sys.argv[1] if len(sys.argv) > 1 else '/repo/rbql-py/rbql/rbql_engine.py'
     import json
-    print(json.dumps(scan(p), indent=1))
+    r = scan(p)
+    r.pop('reachable')
+    print(json.dumps(r, indent=1))
+    print(json.dumps(scan_frontends(os.path.dirname(p)), indent=1))
